@@ -87,6 +87,9 @@ CONFIGS = {
                   "BufCap": 2, "Costs": [1], "InitMaxCost": 2, "MaxCosts": [2], "TTLs": [0, 2], "MaxTime": 3},
     "sim_coll": {"Keys": [1, 2, 3], "Hashes": [1, 2], "HashOf": "CollHash", "ConfOf": "CollConf", "MaxOps": 9,
                  "Ops": ["set", "del", "get", "wait"], "Costs": [1], "InitMaxCost": 3, "MaxCosts": [3], "BufCap": 2},
+    "sim_coll_ttl": {"Keys": [1, 2, 3], "Hashes": [1, 2], "HashOf": "CollHash", "ConfOf": "CollConf", "MaxOps": 9,
+                     "Ops": ["set", "del", "get", "wait"], "Costs": [1], "InitMaxCost": 3, "MaxCosts": [3], "BufCap": 2,
+                     "TTLs": [0, 1, 3], "MaxTime": 6},
     "sim_str": {"Keys": [1, 2, 3], "Hashes": [1, 2, 3], "ConfOf": "StrConf", "MaxOps": 9, "Ops": ["set", "del", "get", "wait"],
                 "Costs": [1, 2], "InitMaxCost": 3, "MaxCosts": [3], "BufCap": 2},
     "sim_refuse_ttl": {"Keys": [1, 2], "Hashes": [1, 2], "Clients": [1, 2], "MaxOps": 8, "Ops": ["set", "del", "wait", "get", "gettl"],
@@ -104,7 +107,7 @@ INV_FOR = {
 # per property: exhaustive configs per tier, simulation configs (name, behaviours quick, thorough, depth)
 PLAN = {
     "C01": {"keytypes": True, "mc": {"quick": ["coll3"], "thorough": ["coll4", "write4"]},
-            "sim": [("sim_coll", 400, 6000, 60), ("sim_str", 300, 4000, 60)]},
+            "sim": [("sim_coll", 300, 6000, 60), ("sim_coll_ttl", 300, 5000, 60), ("sim_str", 200, 4000, 60)]},
     "C02": {"mc": {"quick": ["write3"], "thorough": ["write4", "handoff4"]},
             "sim": [("sim_write", 400, 6000, 60), ("sim_ttl", 300, 4000, 60), ("sim_handoff", 200, 3000, 60)]},
     "C03": {"mc": {"quick": ["cost4", "costfn"], "thorough": ["cost5", "costfn", "write5_view"]},
@@ -146,6 +149,8 @@ GOAL_CFG = {
                    "BufCap": 3, "Costs": [0, 2, 3], "InitMaxCost": 3, "MaxCosts": [3], "MaxGets": 3},
     "g_refuse_ttl": {"Keys": [1, 2], "Hashes": [1, 2], "Clients": [1], "MaxOps": 8, "Ops": ["set", "wait", "get"], "BufCap": 3,
                      "Costs": [1], "InitMaxCost": 10, "MaxCosts": [10], "TTLs": [0, 1, 4], "MaxTime": 6, "RefuseVals": [2, 3, 5]},
+    "g_coll_ttl": {"Keys": [1, 2, 3], "Hashes": [1, 2], "HashOf": "CollHash", "ConfOf": "CollConf", "Clients": [1], "MaxOps": 8,
+                   "Ops": ["set", "del", "wait", "get"], "Costs": [1], "InitMaxCost": 3, "MaxCosts": [3], "BufCap": 3, "TTLs": [0, 1], "MaxTime": 5},
     "g_victim": {"Keys": [1, 2, 3], "Hashes": [1, 2, 3], "Clients": [1, 2], "MaxOps": 8, "Ops": ["set", "del", "get"], "BufCap": 2,
                  "Costs": [1, 2], "InitMaxCost": 2, "MaxCosts": [2], "MaxGets": 2},
     "g_write": {"Keys": [1, 2], "Hashes": [1, 2], "Clients": [1, 2], "MaxOps": 8, "Ops": ["set", "del", "wait"], "BufCap": 1,
@@ -169,9 +174,11 @@ GOALS = {
     "G_SameBucketRewrite": "g_ttl", "G_TTLDropped": "g_ttl", "G_SweepSkip": "g_ttl", "G_SetDuringSweepDel": "g_ttl",
     "G_WaitBlockedInSend": "g_write", "G_TwoClears": "g_clear", "G_SetDuringClear": "g_clear",
     "G_SixVictims": "g_many", "G_ZeroCostVictim": "g_zerocost", "G_RefusedRewrite": "g_refuse_ttl",
+    "G_TakeoverExpiredSlot": "g_coll_ttl", "G_CollidingDel": "g_coll_ttl",
     "G_ClearAfterGetsOnly": "g_clear1", "G_ExactFitAfterShrink": "g_fit", "G_ReAddAfterZeroSweep": "g_zero", "G_DelDuringVictims": "g_victim",
 }
 GOALS_FOR = {
+    "C01": ["G_TakeoverExpiredSlot", "G_CollidingDel"],
     "C02": ["G_UpdateOfEvicted", "G_DroppedUpdate", "G_ClearWhileBusy", "G_DelDuringVictims", "G_SetDuringSweepDel", "G_SetDuringClear"],
     "C03": ["G_RaiseCost", "G_TwoVictims", "G_DuplicateVictim", "G_UpdateOfEvicted", "G_ExactFitAfterShrink", "G_ReAddAfterZeroSweep", "G_SixVictims", "G_ZeroCostVictim"],
     "C04": ["G_DroppedUpdate", "G_RejectWithVictims", "G_ClearWithBacklog", "G_ExpiredUnswept", "G_ClearWithPending", "G_SetDuringClear", "G_RefusedRewrite"],
